@@ -366,7 +366,12 @@ def staticdir(section, dir, root='', match='', content_types=None, index='',
     # There's a chance that the branch pulled from the URL might
     # have ".." or similar uplevel attacks in it. Check that the final
     # filename is a child of dir.
-    if not os.path.normpath(filename).startswith(os.path.normpath(dir)):
+    # Compare on a path separator boundary: a sibling such as "dir-old" or
+    # "dir2" also starts with the string "dir".
+    norm_dir = os.path.normpath(dir)
+    norm_filename = os.path.normpath(filename)
+    if (norm_filename != norm_dir and
+            not norm_filename.startswith(os.path.join(norm_dir, ''))):
         raise cherrypy.HTTPError(403)  # Forbidden
 
     handled = _attempt(filename, content_types)
